@@ -1012,8 +1012,13 @@ def unread_helpers(prog: Program, f: FuncInfo) -> list[str]:
             ts = prog.resolve_call(f, c)
         except AnalysisError:
             continue
+        known = [t for t in ts if isinstance(t, FuncInfo) and t.qualname not in new]
         for t in ts:
             if isinstance(t, FuncInfo) and t.qualname in new and t.qualname != f.qualname:
+                # a new *implementation of a known interface* (an override in a new subclass, reached by the dynamic dispatch the reference tree
+                # already had at this call) is not a helper that hides part of `f`: the rules treat the call as they treat its siblings
+                if known and t.cls is not None and any(k.cls is not None and k.name == t.name and k.cls in prog.mro(t.cls)[1:] for k in known):
+                    continue
                 out.append(t.qualname.split(":")[1])
     return sorted(set(out))
 
